@@ -1,0 +1,25 @@
+//go:build verif
+
+// Copyright 2025 NVIDIA CORPORATION
+// SPDX-License-Identifier: Apache-2.0
+
+package controllers
+
+import (
+	"sigs.k8s.io/controller-runtime/pkg/handler"
+)
+
+// Add-only hooks for the runtime-monitoring harness in /verif (build tag `verif`). They expose the
+// unexported event handlers that SetupWithManager registers, so that a harness can deliver pod
+// delete/completion events and BindRequest delete events to the real handler code (which decides
+// which GPU groups to sync) without a controller-runtime manager. Nothing here changes behaviour.
+
+// VerifEventHandlers returns the handlers PodReconciler.SetupWithManager passes to Watches().
+func (r *PodReconciler) VerifEventHandlers() handler.Funcs {
+	return r.eventHandlers()
+}
+
+// VerifEventHandlers returns the handlers BindRequestReconciler.SetupWithManager passes to Watches().
+func (r *BindRequestReconciler) VerifEventHandlers() handler.Funcs {
+	return r.eventHandlers()
+}
